@@ -7,6 +7,7 @@ import Atomman.C16
 import Proofs.C16_String
 import Proofs.C16_Object
 import Proofs.C16_Memory
+import Proofs.C16_Source
 import Mathlib.Tactic.Ring
 import Mathlib.Tactic.Linarith
 import Mathlib.Tactic.LinearCombination
@@ -1027,4 +1028,177 @@ example : [37, 0, 0] ∉ allIndices 37 true := by
 example : planeInPlane 2048 2048 1024 = .ok (⟨-1, 1, 0⟩, ⟨-1, 0, 2⟩, 1) := by decide
 example : planeInPlane 65537 65539 65543 = .ok (⟨-(65539 * 65543), 65537 * 65543, 0⟩, ⟨-(65539 * 65543), 0, 65537 * 65539⟩, 1) := by decide
 example : (2 : ℤ) ^ 31 ≤ 65539 * 65543 ∧ (2048 * 2048 * 1024 : ℤ) = 2 ^ 32 := by decide
+
+/-! ## end to end over the GENERATED definitions (`Atomman/Generated/MillerSource.lean`: regenerated from miller.py /
+    Box.py / crystalsystem.py on every run and proved equal to the model in `Proofs/C16_Source.lean`) -/
+section endtoend
+variable {K : Type} [Field K] [LinearOrder K] [IsStrictOrderedRing K]
+
+/-- the un-normalised normal is never the zero vector (so the final division is by a positive number). -/
+theorem normal_nonzero (V : M3 K) (hdet : M3.det V ≠ 0) (h k l : ℤ) (hne : ¬(h = 0 ∧ k = 0 ∧ l = 0)) :
+    ∃ n, planeNormalUnnorm V h k l = .ok n ∧ 0 < V3.normSq n := by
+  obtain ⟨n, hn1, c, hc, he⟩ := normal_is_reciprocal V hdet h k l hne
+  refine ⟨n, hn1, ?_⟩
+  by_contra hpos
+  have hnn : 0 ≤ V3.normSq n := by
+    simp only [V3.normSq, V3.dot]; nlinarith [mul_self_nonneg n.x, mul_self_nonneg n.y, mul_self_nonneg n.z]
+  have h0 : n.x * n.x + n.y * n.y + n.z * n.z = 0 := by
+    have := le_antisymm (not_lt.mp hpos) hnn
+    simpa only [V3.normSq, V3.dot] using this
+  have hx : n.x = 0 := by nlinarith [mul_self_nonneg n.x, mul_self_nonneg n.y, mul_self_nonneg n.z]
+  have hy : n.y = 0 := by nlinarith [mul_self_nonneg n.x, mul_self_nonneg n.y, mul_self_nonneg n.z]
+  have hz : n.z = 0 := by nlinarith [mul_self_nonneg n.x, mul_self_nonneg n.y, mul_self_nonneg n.z]
+  have key : ∀ p : V3 K, (h : K) * p.x + k * p.y + l * p.z = 0 := by
+    intro p
+    obtain ⟨n', hn', hiff⟩ := normal_perp_iff_zone V hdet h k l hne 1 one_pos p
+    rw [hn1] at hn'
+    have hnn' : n = n' := by injection hn'
+    subst hnn'
+    apply hiff.mp
+    simp only [normalise, V3.dot, hx, hy, hz]
+    simp
+  have e1 := key ⟨1, 0, 0⟩
+  have e2 := key ⟨0, 1, 0⟩
+  have e3 := key ⟨0, 0, 1⟩
+  simp only [mul_one, mul_zero, add_zero, zero_add] at e1 e2 e3
+  exact hne ⟨by exact_mod_cast e1, by exact_mod_cast e2, by exact_mod_cast e3⟩
+
+/-- what `np.linalg.norm` is assumed to give for the vector `v`: the non-negative root of the sum of squares (asked only of
+    the vectors the code divides by, so the hypothesis is satisfiable in ℚ whenever that root is rational). -/
+def IsNormAt (norm : V3 K → K) (v : V3 K) : Prop := 0 ≤ norm v ∧ norm v * norm v = V3.normSq v
+
+theorem IsNormAt.pos {norm : V3 K → K} {v : V3 K} (hn : IsNormAt norm v) (hv : 0 < V3.normSq v) : 0 < norm v := by
+  obtain ⟨h0, hsq⟩ := hn
+  rcases h0.lt_or_eq with hlt | heq
+  · exact hlt
+  · rw [← heq] at hsq; simp at hsq; rw [← hsq] at hv; exact absurd hv (lt_irrefl _)
+
+/-- END TO END, zone law, over the generated code: for every cell with `det V ≠ 0`, every plane `(hkl) ≠ 0` and every `[uvw]`
+    (any field elements), the vector RETURNED by `plane_cryst_2_cart` (generated branch tree, generated cross product,
+    generated final division by `np.linalg.norm`) is perpendicular to the vector RETURNED by `vector_crystal_to_cartesian`
+    (generated `indices.dot(box.vects)`) exactly when `hu + kv + lw = 0`. -/
+theorem gen_normal_perp_iff_zone (V : M3 K) (hdet : M3.det V ≠ 0) (h k l : ℤ) (hne : ¬(h = 0 ∧ k = 0 ∧ l = 0))
+    (norm : V3 K → K) (p : V3 K) :
+    ∃ n, Src.planeNormalUnnorm V h k l = .ok n ∧ (IsNormAt norm n →
+      (V3.dot (Src.planeResult norm n) (Src.vectorResult p V) = 0 ↔ (h : K) * p.x + k * p.y + l * p.z = 0)) := by
+  obtain ⟨n, hn1, hpos⟩ := normal_nonzero V hdet h k l hne
+  refine ⟨n, by rw [gen_planeNormalUnnorm_eq_model]; exact hn1, fun hnorm => ?_⟩
+  obtain ⟨n', hn', hiff⟩ := normal_perp_iff_zone V hdet h k l hne (norm n) (hnorm.pos hpos) p
+  rw [hn1] at hn'
+  have hnn' : n = n' := by injection hn'
+  subst hnn'
+  rw [gen_planeResult_eq_model]; exact hiff
+
+/-- END TO END, unit reciprocal direction, over the generated code: for a right-handed cell the returned vector has length 1
+    and is a POSITIVE multiple of `h a* + k b* + l c*`. -/
+theorem gen_normal_unit_along_reciprocal (V : M3 K) (hdet : 0 < M3.det V) (h k l : ℤ) (hne : ¬(h = 0 ∧ k = 0 ∧ l = 0))
+    (norm : V3 K → K) :
+    ∃ n, Src.planeNormalUnnorm V h k l = .ok n ∧ (IsNormAt norm n →
+      V3.dot (Src.planeResult norm n) (Src.planeResult norm n) = 1 ∧
+      ∃ c : K, 0 < c ∧ Src.planeResult norm n = V3.smul c (recipVector V h k l)) := by
+  obtain ⟨n, hn1, hpos⟩ := normal_nonzero V hdet.ne' h k l hne
+  obtain ⟨n', hn', hall⟩ := normal_unit_along_reciprocal V hdet h k l hne
+  rw [hn1] at hn'
+  have hnn' : n = n' := by injection hn'
+  subst hnn'
+  refine ⟨n, by rw [gen_planeNormalUnnorm_eq_model]; exact hn1, fun hnorm => ?_⟩
+  have := hall (norm n) (hnorm.pos hpos) hnorm.2
+  rw [gen_planeResult_eq_model]; exact this
+
+/-- all lengths of the cell multiplied by `t`. -/
+def scaleM (t : K) (V : M3 K) : M3 K := ⟨V3.smul t V.r0, V3.smul t V.r1, V3.smul t V.r2⟩
+
+/-- the un-normalised normal of the cell scaled by `t` is `t²` times that of the cell, in every branch. -/
+theorem normal_scale (t : K) (V : M3 K) (h k l : ℤ) :
+    planeNormalUnnorm (scaleM t V) h k l = (planeNormalUnnorm V h k l).map (V3.smul (t * t)) := by
+  simp only [planeNormalUnnorm]
+  rcases planeInPlane h k l with e | ⟨a, b, s⟩
+  · rfl
+  · simp only [Except.map, normalOf, M3.vecMul, V3.cross, V3.smul, scaleM, castV, Except.ok.injEq, V3.mk.injEq]
+    refine ⟨?_, ?_, ?_⟩ <;> ring
+
+theorem IsNormAt.smul {norm : V3 K → K} (c : K) (hc : 0 ≤ c) {v : V3 K} (hv : IsNormAt norm v)
+    (hcv : IsNormAt norm (V3.smul c v)) : norm (V3.smul c v) = c * norm v := by
+  obtain ⟨h0, hsq⟩ := hcv
+  obtain ⟨h1, hsq1⟩ := hv
+  have e : norm (V3.smul c v) * norm (V3.smul c v) = (c * norm v) * (c * norm v) := by
+    rw [hsq, mul_mul_mul_comm, hsq1]; simp only [V3.normSq, V3.dot, V3.smul]; ring
+  rcases mul_self_eq_mul_self_iff.mp e with h | h
+  · exact h
+  · have hcn : 0 ≤ c * norm v := mul_nonneg hc h1
+    have : norm (V3.smul c v) = 0 := le_antisymm (by rw [h]; linarith) h0
+    have : c * norm v = 0 := by rw [this] at h; linarith
+    linarith
+
+/-- SCALE INVARIANCE, end to end over the generated code: the vector returned for `(hkl)` does not depend on the unit the
+    lengths of the cell are written in: for every `t > 0`, every cell and index triple, the scaled cell is refused exactly when
+    the cell is, and otherwise its un-normalised normal is `t²` times the cell's and the returned vectors are EQUAL. -/
+theorem gen_normal_scale_invariant (t : K) (ht : 0 < t) (V : M3 K) (h k l : ℤ) (norm : V3 K → K) :
+    Src.planeNormalUnnorm (scaleM t V) h k l = (Src.planeNormalUnnorm V h k l).map (V3.smul (t * t)) ∧
+    ∀ n, Src.planeNormalUnnorm V h k l = .ok n → IsNormAt norm n → IsNormAt norm (V3.smul (t * t) n) →
+      Src.planeResult norm (V3.smul (t * t) n) = Src.planeResult norm n := by
+  refine ⟨by rw [gen_planeNormalUnnorm_eq_model, gen_planeNormalUnnorm_eq_model, normal_scale], ?_⟩
+  intro n _ hn hsn
+  have htt : t * t ≠ 0 := (mul_pos ht ht).ne'
+  simp only [gen_planeResult_eq_model]
+  rw [IsNormAt.smul (t * t) (mul_pos ht ht).le hn hsn]
+  simp only [normalise, V3.smul, V3.mk.injEq]
+  exact ⟨mul_div_mul_left _ _ htt, mul_div_mul_left _ _ htt, mul_div_mul_left _ _ htt⟩
+
+/-- Cartesian vectors scale along: `[uvw]` in the cell scaled by `t` is `t` times `[uvw]` in the cell. -/
+theorem gen_vector_scale (t : K) (V : M3 K) (p : V3 K) :
+    Src.vectorResult p (scaleM t V) = V3.smul t (Src.vectorResult p V) := by
+  simp only [Src.vectorResult, M3.vecMul, V3.smul, scaleM, V3.mk.injEq]
+  refine ⟨?_, ?_, ?_⟩ <;> ring
+
+/-- the 3 ↔ 4 round trips over the generated column formulas and guards. -/
+theorem gen_plane34_roundtrip (atol : K) (hat : 0 ≤ atol) :
+    (∀ p : V3 K, Src.plane4to3 atol (Src.plane3to4 p) = .ok p) ∧
+    (∀ (q : V4 K) (p : V3 K), Src.plane4to3 atol q = .ok p → q.a + q.b + q.c = 0 → Src.plane3to4 p = q) :=
+  plane34_roundtrip atol hat
+
+theorem gen_vector34_roundtrip (atol : K) (hat : 0 ≤ atol) :
+    (∀ p : V3 K, Src.vector4to3 atol (Src.vector3to4 p) = .ok p) ∧
+    (∀ (q : V4 K) (p : V3 K), Src.vector4to3 atol q = .ok p → q.a + q.b + q.c = 0 → Src.vector3to4 p = q) :=
+  vector34_roundtrip atol hat
+
+/-- the Box methods and the stand-alone functions of crystalsystem.py are the same functions of `(a, b, c, α, β, γ)` and
+    the tolerances: all seven predicates and `identifyfamily`. -/
+theorem gen_box_cs_agree (rtol atol : K) (p : CellParams K) :
+    Src.box_identifyFamily rtol atol p = Src.cs_identifyFamily rtol atol p ∧
+    Src.box_isCubic rtol atol p = Src.cs_isCubic rtol atol p ∧ Src.box_isHexagonal rtol atol p = Src.cs_isHexagonal rtol atol p ∧
+    Src.box_isTetragonal rtol atol p = Src.cs_isTetragonal rtol atol p ∧
+    Src.box_isRhombohedral rtol atol p = Src.cs_isRhombohedral rtol atol p ∧
+    Src.box_isOrthorhombic rtol atol p = Src.cs_isOrthorhombic rtol atol p ∧
+    Src.box_isMonoclinic rtol atol p = Src.cs_isMonoclinic rtol atol p ∧ Src.box_isTriclinic rtol atol p = Src.cs_isTriclinic rtol atol p :=
+  ⟨rfl, rfl, rfl, rfl, rfl, rfl, rfl, rfl⟩
+
+/-- over the generated predicates and chain of BOTH implementations: `identifyfamily` answers `f` exactly when `f`'s own
+    predicate holds (the chain's order is immaterial), for tolerances small against 30 degrees and outside the narrow window
+    of `identify_iff_pred`. -/
+theorem gen_identify_iff_pred (rtol atol : K) (htol : 2 * atol + 210 * rtol < 30) (p : CellParams K)
+    (hwin : Src.box_isTriclinic rtol atol p = true →
+      ¬(isclose rtol atol p.alpha deg90 = true ∧ isclose rtol atol p.gamma deg90 = true)) :
+    (Src.box_identifyFamily rtol atol p = some .cubic ↔ Src.cs_isCubic rtol atol p = true) ∧
+    (Src.cs_identifyFamily rtol atol p = some .hexagonal ↔ Src.box_isHexagonal rtol atol p = true) ∧
+    (Src.box_identifyFamily rtol atol p = some .tetragonal ↔ Src.cs_isTetragonal rtol atol p = true) ∧
+    (Src.cs_identifyFamily rtol atol p = some .rhombohedral ↔ Src.box_isRhombohedral rtol atol p = true) ∧
+    (Src.box_identifyFamily rtol atol p = some .orthorhombic ↔ Src.cs_isOrthorhombic rtol atol p = true) ∧
+    (Src.cs_identifyFamily rtol atol p = some .monoclinic ↔ Src.box_isMonoclinic rtol atol p = true) ∧
+    (Src.box_identifyFamily rtol atol p = some .triclinic ↔ Src.cs_isTriclinic rtol atol p = true) :=
+  identify_iff_pred rtol atol htol p hwin
+
+end endtoend
+
+/-! non-vacuity on concrete states: a cell that is not orthogonal, a plane with three non-zero indices; a plane whose normal has
+    a rational length (so that the norm hypothesis is met in ℚ); the same cell written in a unit 1000 times larger -/
+example : Src.planeNormalUnnorm (K := ℚ) ⟨⟨2, 0, 0⟩, ⟨1, 3, 0⟩, ⟨1, 1, 4⟩⟩ 2 (-3) 4 = .ok ⟨144, -192, 156⟩ := by decide +kernel
+example : Src.planeNormalUnnorm (K := ℚ) ⟨⟨1, 0, 0⟩, ⟨0, 1, 0⟩, ⟨0, 0, 1⟩⟩ 3 4 0 = .ok ⟨3, 4, 0⟩ := by decide +kernel
+example : IsNormAt (K := ℚ) (fun v => if v = ⟨3, 4, 0⟩ then 5 else 0) ⟨3, 4, 0⟩ := by
+  unfold IsNormAt; simp [V3.normSq, V3.dot]; norm_num
+example : V3.dot (Src.planeResult (K := ℚ) (fun v => if v = ⟨3, 4, 0⟩ then 5 else 0) ⟨3, 4, 0⟩)
+    (Src.vectorResult ⟨4, -3, 7⟩ ⟨⟨1, 0, 0⟩, ⟨0, 1, 0⟩, ⟨0, 0, 1⟩⟩) = 0 := by decide +kernel
+example : Src.planeNormalUnnorm (K := ℚ) (scaleM (1 / 1000) ⟨⟨2, 0, 0⟩, ⟨1, 3, 0⟩, ⟨1, 1, 4⟩⟩) 2 (-3) 4
+    = .ok (V3.smul ((1 / 1000) * (1 / 1000)) ⟨144, -192, 156⟩) := by decide +kernel
+example : (2 : ℚ) * (1 / 100000000) + 210 * (1 / 100000) < 30 := by norm_num
 end Atomman.C16
